@@ -19,7 +19,7 @@ Definition chk_subparam (e : elem) : bool :=
   pvec_eqb (vstraighten e p (xmap e)) (xmap p) &&
   forallb (fun a => pvec_eqb (vstraighten e p (Frow e a)) (Frow p a)) [0; 1; 2].
 Lemma all_subparam : forallb chk_subparam all_elems = true.
-Proof. vm_compute. reflexivity. Qed.
+Proof. vm_cast_no_check (eq_refl true). Qed.
 
 Definition senv (e p : elem) (l : list R) : list R := map (Reval l) (node_sub (straight_nodes e p)).
 Lemma Reval_straighten l e p x : Reval l (straighten e p x) = Reval (senv e p l) x.
@@ -120,7 +120,7 @@ Definition chk_measure_parent (e : elem) : bool :=
      forallb (fun c => coeffs_within tol13 (PEsub (rule_sum (the_rule e "mass"%string) (moment p c)) (moment_star p c))) [0; 1; 2]
    else true).
 Lemma all_measure_parent : forallb chk_measure_parent all_elems = true.
-Proof. vm_compute. reflexivity. Qed.
+Proof. vm_cast_no_check (eq_refl true). Qed.
 
 (* measure_exact: for EACH of the 19 types placed straight-sidedly on arbitrary vertices,
    Integrate_e's value (rule 'rigi' and rule 'mass') equals, as a function of the vertex
